@@ -18,6 +18,7 @@ import (
 	"os"
 	"path/filepath"
 	"strings"
+	"time"
 
 	"verif/ref/tbin"
 )
@@ -46,7 +47,15 @@ func logEvent(format string, a ...interface{}) {
 	logf.Sync()
 }
 
+// exit records the exit only after a short pause: a host that waits for its
+// children (cmd.Wait) therefore always finds the exit record once it has
+// exited itself (happens-before through wait), while a host that does not
+// reap its children exits while this process is still pausing, and the driver
+// (which reads the log the moment the host exits) finds the record missing.
+// The pause can cause a missed detection on a slow machine, never a false alarm.
 func exit(code int) {
+	logEvent("exiting %d", code)
+	time.Sleep(40 * time.Millisecond)
 	logEvent("exit %d", code)
 	os.Exit(code)
 }
